@@ -5,7 +5,7 @@
     ecdsam <pk> <sig> <msg>           -> <model 0|1> <code>            (model only, cheaper)
     pub <pk>                          -> m <x> <y> | m none ; s <x> <y> | s none   (one line)
     psig <sig>                        -> m <r> <s> <len> | m none ; s <r> <s> | s none
-    schnorr <pk> <sig> <msg>          -> <model 0|1> <spec 0|1>
+    schnorr <pk> <sig> <msg>          -> <model 0|1> <spec 0|1> <spec-text 0|1>   (Spec.Bip340.verify / verifyText)
     tweak <qx> <base> <hash> <0|1>    -> <model 0|1> <spec 0|1>
     sign <sec> <msg> <nonce>          -> ok <r> <s> <recid> <der|panic> <strict 0|1> <lowS 0|1> | none
     signrfc <priv> <hash>             -> ok <r> <s> <nonce> | none
@@ -14,7 +14,9 @@
     recover <r> <s> <h> <recid>       -> ok <x> <y> | inf | none
     ssign <m> <sk> <aux>              -> m <sig|none> s <sig|none>
     legacy ecdsa|schnorr|tweak …      -> the model of the pinned snapshot (before the fix: commits)
-    schnorre <pk> <sig> <e32>         -> <model 0|1> <spec 0|1>   SchnorrVerify / BIP340 verify evaluated with the
+    legacy recov <r> <s> <h> <recid hex byte> -> ok <x> <y> | inf | none     (recoverPublicKeyLegacy)
+    legacy ssign <m> <sk> <aux>       -> panic | nopanic                    (schnorrSignLegacyPanics)
+    schnorre <pk> <sig> <e32>         -> <model 0|1> <spec 0|1> <spec-text 0|1>   SchnorrVerify / BIP340 verify evaluated with the
                                          CONSTANT hash function H = fun _ => e32 (the theorems hold for every H),
                                          i.e. with the challenge bytes injected: the only way to reach e ≥ n
     ecmult <pk33|65> <neg 0|1> <mag> <ng> -> inf | <x> <y>      Sig.ecmult A (±mag) ng  (XYZ.ECmult, na possibly negative)
@@ -70,7 +72,7 @@ def step (_ : Unit) (toks : List String) : Unit × String :=
   | ["schnorr", pk, sg, msg] =>
     match Hex.decode pk, Hex.decode sg, Hex.decode msg with
     | some pk, some sg, some msg =>
-      ((), s!"{b (Sig.schnorrVerify sha256 pk sg msg)} {b (Spec.Bip340.verify sha256 pk sg msg)}")
+      ((), s!"{b (Sig.schnorrVerify sha256 pk sg msg)} {b (Spec.Bip340.verify sha256 pk sg msg)} {b (Spec.Bip340.verifyText sha256 pk sg msg)}")
     | _, _, _ => bad
   | ["tweak", qx, base, h, par] =>
     match Hex.decode qx, Hex.decode base, Hex.decode h with
@@ -126,7 +128,7 @@ def step (_ : Unit) (toks : List String) : Unit × String :=
     | some pk, some sg, some e =>
       if e.length ≠ 32 then bad else
       let H : C03.Hash := fun _ => e
-      ((), s!"{b (Sig.schnorrVerify H pk sg [])} {b (Spec.Bip340.verify H pk sg [])}")
+      ((), s!"{b (Sig.schnorrVerify H pk sg [])} {b (Spec.Bip340.verify H pk sg [])} {b (Spec.Bip340.verifyText H pk sg [])}")
     | _, _, _ => bad
   | ["ecmult", pk, neg, mag, ng] =>
     match Hex.decode pk, Hex.decode mag, Hex.decode ng with
@@ -147,6 +149,19 @@ def step (_ : Unit) (toks : List String) : Unit × String :=
   | ["legacy", "schnorr", pk, sg, msg] =>
     match Hex.decode pk, Hex.decode sg, Hex.decode msg with
     | some pk, some sg, some msg => ((), optB (Sig.schnorrVerify? false sha256 pk sg msg))
+    | _, _, _ => bad
+  | ["legacy", "recov", r, s, h, recid] =>
+    match Hex.decode r, Hex.decode s, Hex.decode h, Hex.decode recid with
+    | some r, some s, some h, some [rc] =>
+      if rc.toNat > 3 then bad else
+      match Sig.recoverPublicKeyLegacy (beVal r) (beVal s) h rc.toNat with
+      | none => ((), "none")
+      | some none => ((), "inf")
+      | some (some (x, y)) => ((), s!"ok {nat32 x} {nat32 y}")
+    | _, _, _, _ => bad
+  | ["legacy", "ssign", m, sk, a] =>
+    match Hex.decode m, Hex.decode sk, Hex.decode a with
+    | some _, some sk, some _ => ((), if Sig.schnorrSignLegacyPanics sk then "panic" else "nopanic")
     | _, _, _ => bad
   | ["legacy", "tweak", qx, base, h, par] =>
     match Hex.decode qx, Hex.decode base, Hex.decode h with
